@@ -65,7 +65,7 @@ CLAIMS["C10"] = dict(level="model_checking", tech="TLA+ definitions of the stand
          "function's definition restricted to the first dmax (and slen) elements; TLC enumerates all operand pairs over a small alphabet (case pair, "
          "high-bit byte, digit, blank) with lengths 0..K and dmax/slen below, at and above the string lengths, checks C10_T (operands unmodified, "
          "antisymmetry of comparisons) and every call is executed with both operands flush against inaccessible pages and judged by TraceArena.tla",
-    ref="§3 C10", note=ARENA_NOTE + "; wcsicmp_s by lower-case folding over the arena alphabet, the natural-order functions by StrQuery!NatCmp (Martin Pool's algorithm transcribed); wcscoll_s has no oracle here")
+    ref="§3 C10", note=ARENA_NOTE + "; wcsicmp_s by lower-case folding over the arena alphabet, the natural-order functions by StrQuery!NatCmp (Martin Pool's algorithm transcribed); strcoll_s / wcscoll_s in the C locale (their unbounded scan is a named deviation)")
 CLAIMS["C12"] = dict(level="model_checking", tech="TLA+ interleaving model of scratch storage (Threads.tla) checked by TLC + per-call static-footprint observation of the library's .data/.bss validated by TraceThreads.tla",
     text="TLC explores all interleavings of threads whose calls stage intermediate values in automatic or static scratch: NonInterference holds iff no "
          "function uses static scratch; the code is bound to that premise by the property's schedule-independent formulation: for every probe (each "
@@ -111,7 +111,7 @@ CLAIMS["C18"] = dict(level="exploration", tech="TLA+ dead-store-elimination mode
          "function x storage (stack, heap-then-free, static) x constant or run-time parameters x n x offset is enumerated by TLC, each cell is a real "
          "client program compiled from the working tree in which the buffer is dead after the call, and a separately compiled observer reads the bytes "
          "after the frame is gone / when the block reaches free / at exit; every observation is judged against the contract (fill value in exactly the addressed bytes)",
-    ref="§3 C18", note="an exploration of concrete build configurations (gcc 12, x86-64; quick: O0/O2/O3 x static/LTO, thorough: O0..Os x static/LTO/shared), not a proof about all compilers; the decision is by observing compiled programs - the TLA+ part is the optimiser model, the matrix and the judge; trusted: the observer's out-of-band read, harness/erase/*.c")
+    ref="§3 C18", note="an exploration of concrete build configurations (gcc 12 and clang 14, x86-64; quick: O0/O2/O3 x static / gcc LTO / clang LTO, thorough: O0..Os x static / LTO / shared / clang LTO / clang caller; zero and non-zero fill values), not a proof about all compilers; the decision is by observing compiled programs - the TLA+ part is the optimiser model, the matrix and the judge; trusted: the observer's out-of-band read, harness/erase/*.c")
 
 NOT_YET = {
 }
